@@ -147,6 +147,18 @@ CLAIMED["C07"] = dict(engine="heap", design="4 C07",
        "'library and format graph unchanged'. String-level decisions (bare references, sort permutation) enter the model as harness-computed "
        "arguments. Exceptions are atoms.",
   technique="Coq proof (frame reasoning over a heap; induction over blocks/stacks) + property oracle + differential correspondence via extracted model")
+
+CLAIMED["C05"] = dict(engine="roundtrip", design="4 C05",
+   text="Coq theorems over the composed model of the public entry points (splitter, resolve, remove-enclosing, add-enclosing, writer): for "
+        "EVERY duplicate-free document of the dialect grammar and EVERY format with whitespace-only indent/separator, parse->write->parse "
+        "preserves the content of every block and the second write reproduces the first byte for byte; none of the four steps can fail; "
+        "the writer depends on a library only through its content. Tied to /repo by differential correspondence of the composed model with "
+        "parse_string/write_string on (document, format) pairs (written text, re-parsed blocks incl. metadata, second text) and an "
+        "independent Python oracle.",
+   note="known finding K7 (a key, explicit comment or value ending in a backslash escapes the delimiter written after it) is excluded by "
+        "hypothesis and reported as KNOWN-FINDING; block_separator/indent must be whitespace-only (stated in the theorem); model "
+        "hand-written, tied by correspondence; extraction cross-checked by vm_compute",
+   technique="Coq proof (writer output is the rendering of a well-formed grammar AST; C02 applied twice) + differential correspondence via extracted model")
 PENDING = {}
 
 def main():
